@@ -635,6 +635,82 @@ fn file_kinds_family(rep: &mut Report) {
     rep.cov_add("traces_validated_against_impl", jobs.len() as u64);
 }
 
+/// Runs onto the output of an earlier run: what was written before must not decide whether an annotated item of this
+/// run is generated. Two or three crates, folder and file output; the second run sees one more crate, one more item in
+/// the last crate, or one more item in the first; every language.
+fn reruns_family(rep: &mut Report) {
+    use crate::cli::{self, par_map, run_cli, s, Scratch};
+    if !cli::bin_available() {
+        return; // reported by file_kinds_family
+    }
+    const CHANGES: [&str; 4] = ["a-later-crate-is-new", "an-earlier-crate-is-new", "the-last-crate-gains-an-item", "the-first-crate-gains-an-item"];
+    let mut jobs = Vec::new();
+    for change in CHANGES {
+        for &lang in &ALL_LANGS {
+            for folder in [true, false] {
+                jobs.push((change, lang, folder));
+            }
+        }
+    }
+    let item = |n: &str| format!("#[typeshare]\npub struct {n} {{ pub a: u32 }}\n");
+    let results = par_map(&jobs, report::threads(), |(change, lang, folder)| {
+        let sc = Scratch::new("c03r");
+        // (crate, items) before and after
+        let (before, after): (Vec<(&str, Vec<&str>)>, Vec<(&str, Vec<&str>)>) = match *change {
+            "a-later-crate-is-new" => (vec![("alpha", vec!["AlphaOne"])], vec![("alpha", vec!["AlphaOne"]), ("beta", vec!["BetaOne", "BetaTwo"])]),
+            "an-earlier-crate-is-new" => (vec![("beta", vec!["BetaOne"])], vec![("alpha", vec!["AlphaOne"]), ("beta", vec!["BetaOne"])]),
+            "the-last-crate-gains-an-item" => (vec![("alpha", vec!["AlphaOne"]), ("beta", vec!["BetaOne"])], vec![("alpha", vec!["AlphaOne"]), ("beta", vec!["BetaOne", "BetaTwo"])]),
+            _ => (vec![("alpha", vec!["AlphaOne"]), ("beta", vec!["BetaOne"])], vec![("alpha", vec!["AlphaOne", "AlphaTwo"]), ("beta", vec!["BetaOne"])]),
+        };
+        let out = if *folder { sc.mkdir("out") } else { sc.mkdir("out").join(format!("types.{}", lang.ext())) };
+        let mut last = (String::new(), String::new(), Vec::new());
+        for (i, layout) in [&before, &after].iter().enumerate() {
+            for (krate, items) in layout.iter() {
+                sc.write(&format!("ws/{krate}/src/lib.rs"), items.iter().map(|n| item(n)).collect::<Vec<_>>().join("\n").as_bytes());
+            }
+            let mut args = cli::lang_args(*lang);
+            args.extend([s(if *folder { "-d" } else { "-o" }), out.to_string_lossy().into_owned(), sc.path("ws").to_string_lossy().into_owned()]);
+            let r = run_cli(&args, &sc.root, &[], cli::TIMEOUT);
+            last = (r.class().to_string(), r.stderr.chars().take(300).collect(), args);
+            if r.class() != "ok" {
+                return (format!("run {}: {}", i + 1, last.0), last.1, last.2, Default::default(), vec![]);
+            }
+        }
+        let snap: std::collections::BTreeMap<String, String> = cli::snapshot(&sc.path("out")).into_iter().map(|(k, v)| (k, String::from_utf8_lossy(&v).into_owned())).collect();
+        let expected: Vec<String> = after.iter().flat_map(|(_, items)| items.iter().map(|s| s.to_string())).collect();
+        (last.0, last.1, last.2, snap, expected)
+    });
+    let mut judged = 0u64;
+    for ((change, lang, folder), (class, stderr, argv, snap, expected)) in jobs.iter().zip(results.iter()) {
+        let mode = if *folder { "folder" } else { "file" };
+        if class != "ok" {
+            rep.vios.add(Violation { sig: format!("C03|{}|rerun|{change}|{mode}|run-failed", lang.name()), detail: json!({"argv": argv, "failure": class, "stderr": stderr}) });
+            continue;
+        }
+        let mut defined: Vec<String> = Vec::new();
+        let mut unreadable = false;
+        for text in snap.values() {
+            match crate::extract::extract(*lang, text) {
+                Ok(of) => defined.extend(of.defs.iter().map(|d| d.name().to_string())),
+                Err(_) => unreadable = true,
+            }
+        }
+        for name in expected {
+            judged += 1;
+            let n = defined.iter().filter(|d| *d == name).count();
+            if n != 1 || unreadable {
+                rep.vios.add(Violation {
+                    sig: format!("C03|{}|rerun|{change}|{mode}|{}", lang.name(), if unreadable { "output-unreadable" } else if n == 0 { "item-of-this-run-not-generated" } else { "item-generated-twice" }),
+                    detail: json!({"argv": argv, "change_between_the_runs": change, "item": name, "definitions_after_the_second_run": defined, "output_location_after_the_second_run": snap, "stderr": stderr}),
+                });
+            }
+        }
+    }
+    rep.cov("reruns", json!({"changes_between_the_two_runs": CHANGES, "output_modes": ["folder", "file"], "languages": 6, "process_runs": jobs.len() * 2, "judgements": judged}));
+    rep.cov_add("evaluations", judged);
+    rep.cov_add("traces_validated_against_impl", jobs.len() as u64 * 2);
+}
+
 /// Files of every size around the read-buffer boundaries: where in a file an annotation sits — in particular relative to
 /// the 4 KiB … 64 KiB marks any chunked pre-scan would use — must not decide whether the file is read. Each file's only
 /// mention of the word `typeshare` is its one `#[typeshare]`, at a chosen byte offset.
@@ -804,6 +880,7 @@ pub fn run(args: &[String]) -> i32 {
     });
     file_kinds_family(&mut rep);
     file_sizes_family(&mut rep);
+    reruns_family(&mut rep);
     require_nonvacuous(&mut rep);
     rep.cov("rule", json!("items family: every sequence of 1..N items over 7 item kinds × annotated/un-annotated × module depth 0..2 × language: the definitions recovered from the output (minus Inner helpers) must equal the annotated items; members family: every skip pattern over three members (27) × skip spelling × attribute style × rename × 4 container kinds × language: members must equal the non-skipped source members in source order. non-trivial = something is un-annotated / nested in a module / skipped."));
     rep.assume("an annotated const in a backend without const support must make the run fail with an error; output without it is a silent omission");
